@@ -12,9 +12,10 @@ PROP = {'tables': ['C15'], 'n_quick': 110,
          'count, missing / extra map, corrupted preimage, trailing bytes after a count VarInt, explicit Default sighash byte, key/value edits), n/2 byte-level '
          'mutations and truncations, base64 text (valid and malformed), ELIP-100/102 accessors; distinct = distinct (mode, bytes); non-trivial = the decoder '
          'accepted it',
- 'trusted': ['secp256k1(-zkp) point / public key / x-only key validity, bitcoin::Transaction and Xpub parsing are oracles (Section variables; theorems hold for '
+ 'trusted': ['secp256k1(-zkp) point / public key / x-only key validity are oracles (Section variables; theorems hold for '
              'every oracle); in runs they are the lists of byte strings the libraries accept among the key data and values of the case (harness/src/c07.rs: oracles)',
-             'bitcoin::Transaction (peg-in tx) and Xpub are assumed to re-serialise to exactly the accepted bytes (modelled as opaque validated byte strings)',
+             'bitcoin::Transaction (peg-in tx) is a concrete codec transcribed from rust-bitcoin 0.32 (Model/BtcTx.v, proved Lawful) and Xpub its 78-byte framing with the embedded '
+             'key left to the public-key oracle: transcriptions of an external crate, exercised by every run (peg-in transactions with and without witnesses, xpub maps)',
              'RIPEMD160 / HASH160 are abstract; in runs a table of the digests of the values present in the case (SHA256 / HASH256 are computed by Base/Sha256.v)',
              'range / surjection proof acceptance is the header/format rule transcribed from the vendored C sources (as in C01)',
              'the order in which a BTreeMap field is emitted is the transcribed `Ord` of the Rust key type (bitcoin::PublicKey: uncompressed first, then the '
@@ -34,14 +35,14 @@ TEXT = {'text': 'Kernel-checked theorems over the PSET field tables regenerated 
          '(C07_rt, and through base64 C07_rt_text); everything the decoder accepts satisfies all acceptance rules (C07_decoder_wf) and its re-encoding '
          'decodes to an equal PSET and re-encodes to itself (C07_fixpoint, for every accepted byte string); an encoding with a repeated key is rejected '
          '(C07_rejects_duplicate_tables: no field of the regenerated tables is assigned without a duplicate test), accepted maps have all mandatory fields and the output completeness rules, declared counts equal the number of maps, bad '
-         'preimages are errors; BTreeMap insert/get of the ELIP-100/102 accessors. The value canonisers (Deserialize then Serialize of each type of '
+         'preimages are errors; conversely any mismatch between the declared counts and the maps present is rejected (C07_count_mismatch_rejected); metadata set through '
+         'the ELIP-100/102 accessors on any well-formed PSET yields a well-formed PSET and survives the round trip (C07_elip_*_survives); the blinder-to-blinder hop of C09 is C07_hop_identity. The value canonisers (Deserialize then Serialize of each type of '
          'pset/serialize.rs) are proved idempotent and non-lengthening; for TapTree it is the identity (C15 builder completeness + leaf-order lemmas). '
          'The three repaired findings (F9 reversed tap-tree leaves, F17 duplicated global flag, F18 unchecked commitment length) are kernel-evaluated '
          'regression examples and return as VIOLATION if the code regresses. The model '
          'is run against serialize/deserialize/to_string/from_str and the accessors of the real crate on every check.',
  'design_ref': 'DESIGN.md section 6, C07',
- 'note': 'Trusted: Coq kernel; hand-written Gallina model tied to the Rust by the regenerated tables and the per-run correspondence; secp256k1 validity, '
-         'bitcoin::Transaction / Xpub parsing and RIPEMD160 as oracles; transcribed key comparators; Rust harness. Partial: PSET equality is equality of '
-         'canonical bytes (which implies the crate-level equality); the count-mismatch rejection is stated as "accepted implies '
-         'counts = maps and nothing trails".',
+ 'note': 'Trusted: Coq kernel; hand-written Gallina model tied to the Rust by the regenerated tables and the per-run correspondence; secp256k1 validity '
+         'and RIPEMD160 as oracles; transcribed key comparators; Rust harness. Partial: PSET equality is equality of '
+         'canonical bytes (which implies the crate-level equality); error classes are coarse.',
  'technique': 'Coq proof (generic insertion-sort decoder invariant + canoniser laws; tables by kernel evaluation) + per-run model/implementation correspondence'}
